@@ -87,6 +87,9 @@ type MutScenario struct {
 	Region  int    `json:"region"`
 	Offset  int    `json:"offset,omitempty"`
 	Pos     int    `json:"pos,omitempty"`
+	// WrongPass: the corrupted file is ALSO opened with a wrong pass-phrase (two faults at once: the error
+	// paths of the error paths). Never a signer, never a key, never a panic.
+	WrongPass bool `json:"wrong_pass,omitempty"`
 }
 
 // mutation pass-phrases: a small pool, because every distinct (source, pass-phrase) base file
@@ -168,6 +171,7 @@ func genMut(t *rapid.T) MutScenario {
 	case kB64:
 		sc.Arg = rapid.IntRange(1, 64).Draw(t, "shift")
 	}
+	sc.WrongPass = rapid.IntRange(0, 2).Draw(t, "wrongpass") == 0
 	if sc.Kind == kTrunc {
 		sc.Region = -1
 		sc.Pos = rapid.IntRange(0, 400).Draw(t, "len")
@@ -256,6 +260,30 @@ func runMut(sc MutScenario) world.Verdict {
 	} else {
 		labels = append(labels, "export:rejected")
 	}
+	if sc.WrongPass {
+		// differs in its first byte (the legacy derivation only looks at the first 32 bytes of a pass-phrase)
+		wrong := cp(pass)
+		if len(wrong) == 0 {
+			wrong = []byte("x")
+		} else {
+			wrong[0] ^= 0x5a
+		}
+		labels = append(labels, "also-opened-with-a-wrong-pass-phrase")
+		ow := load(dir, wrong)
+		if ow.pan != "" {
+			return world.Fail(panicSig(ow), "Load panicked on a corrupted key file opened with a wrong pass-phrase: %s: %s", desc, ow.pan)
+		}
+		if ow.err == nil {
+			return world.Fail("C19/wrong-passphrase-accepted", "Load returned a signer for a wrong pass-phrase: %s", desc)
+		}
+		ew := export(dir, wrong)
+		if ew.pan != "" {
+			return world.Fail(panicSig(ew), "ExportPrivateKey panicked on a corrupted key file opened with a wrong pass-phrase: %s: %s", desc, ew.pan)
+		}
+		if ew.err == nil {
+			return world.Fail("C19/wrong-passphrase-accepted", "ExportPrivateKey returned a key for a wrong pass-phrase: %s", desc)
+		}
+	}
 	// the file on disk is never rewritten by loading it
 	if after, err := os.ReadFile(filepath.Join(dir, keyFileName)); err != nil || !bytes.Equal(after, mutated) {
 		return world.Fail("C19/load-rewrites-file", "loading changed the key file on disk: %s", desc)
@@ -305,6 +333,9 @@ func exhaustiveList(t *testing.T) []MutScenario {
 				out = append(out, MutScenario{Source: bf.source, PassIdx: bf.passIdx, Kind: k, Region: -1, Pos: pos})
 			}
 			out = append(out, MutScenario{Source: bf.source, PassIdx: bf.passIdx, Kind: kB64, Arg: 1, Region: -1, Pos: pos})
+			if bf.source != srcImport {
+				out = append(out, MutScenario{Source: bf.source, PassIdx: bf.passIdx, Kind: kFlip, Arg: 0, Region: -1, Pos: pos, WrongPass: true})
+			}
 		}
 		for l := 0; l < len(base.bytes); l++ {
 			out = append(out, MutScenario{Source: bf.source, PassIdx: bf.passIdx, Kind: kTrunc, Region: -1, Pos: l})
@@ -346,6 +377,7 @@ func directedList(t *testing.T) []MutScenario {
 			if r.IsName {
 				add(kFlip, 0, i, 0)
 				add(kZero, 0, i, -1)
+				out = append(out, MutScenario{Source: bf.source, PassIdx: bf.passIdx, Kind: kFlip, Arg: 0, Region: i, Offset: 1, WrongPass: true})
 				continue
 			}
 			add(kPad, 0, i, -1)
